@@ -110,6 +110,10 @@ def childiter_of(name):
     if name == "memolist":  # a pure function that hands back the SAME list object whenever it is asked about the same children again
         memo = {}
         return lambda kids: memo.setdefault(tuple(id(k) for k in kids), list(kids))
+    if name == "lazyodd":  # a generator (always truthy) that keeps every second child only: an only child disappears
+        return lambda kids: (k for i, k in enumerate(kids) if i % 2 == 1)
+    if name == "filterobj":  # a filter object (always truthy) that keeps inner nodes only: a parent of leaves keeps none
+        return lambda kids: filter(lambda k: len(k.children) > 0, kids)
     if name == "tail":  # drops the first child: an only child disappears, its parent is exported without 'children'
         return lambda kids: list(kids)[1:]
     raise ValueError(name)
@@ -233,6 +237,13 @@ def strip_empty_children(d):
     kids = [strip_empty_children(c) for c in d.get("children", [])]
     if kids:
         out["children"] = kids
+    return out
+
+
+def to_ordered(d):
+    out = collections.OrderedDict((k, v) for k, v in d.items() if k != "children")
+    if "children" in d:
+        out["children"] = [to_ordered(c) for c in d["children"]]
     return out
 
 
@@ -394,6 +405,17 @@ def check_dict_case(case, acc):
     want = strip_empty_children(data)
     if back != want:
         raise Violation("import-export", "export(import_(d)) = %r, expected %r" % (back, want))
+    if case["cls"] != "Node":
+        # ... also as ordered mappings (an OrderedDict document, the JSON text): attributes come back in the document's
+        # order, 'children' last (Node treats 'name' as a parameter of its own, so its position is not the document's)
+        def key_order(d):
+            return [k for k in d if k != "children"], [key_order(c) for c in d.get("children", [])]
+
+        if key_order(back) != key_order(want):
+            raise Violation("import-export", "export(import_(d)) lists the attributes in another order than d: %r, document %r" % (key_order(back), key_order(want)))
+        ordered = DictExporter(dictcls=collections.OrderedDict).export(DictImporter(nodecls=nodecls).import_(to_ordered(data)))
+        if ordered != to_ordered(want):
+            raise Violation("import-export", "for an OrderedDict document d, export(import_(d)) != d (OrderedDict equality is sensitive to order)")
     # the same dictionary object (or the same children list) at several places of a document - as YAML aliases and re-used
     # template dictionaries produce it - is just repeated data: every occurrence becomes a node of its own
     def aliased(d, pool):
@@ -468,7 +490,7 @@ def random_cases(draw):
         "attrs": [draw(attr_list(cls)) for _ in range(size)],
         "start": draw(st.one_of(st.just(0), st.integers(0, size - 1))),
         "attriter": draw(st.sampled_from([None, "sorted", "keyfilter", "genfilter", "dictmemo", "dictconst"])),
-        "childiter": draw(st.sampled_from(["list", "reversed", "filter", "tail", "iter", "revgen", "memolist"])),
+        "childiter": draw(st.sampled_from(["list", "reversed", "filter", "tail", "iter", "revgen", "memolist", "lazyodd", "filterobj"])),
         "dictcls": draw(st.sampled_from(["dict", "OrderedDict", "MyDict"])),
         "maxlevel": draw(st.one_of(st.none(), st.integers(0, 6), st.integers(0, 6), st.sampled_from([0.5, 1.5, 2.5, 3.5, 2.0]))),
         "abort_at": draw(st.integers(0, 8)),
@@ -488,7 +510,7 @@ def _enum_cases(max_nodes, index, count):
                 continue
             for maxlevel in [None] + list(range(0, height + 3)) + sorted({1.5, max(height - 0.5, 0.5)}):
                 for attriter in (None, "sorted", "keyfilter", "dictmemo", "dictconst"):
-                    for childiter in ("list", "reversed", "filter", "tail", "iter", "revgen", "memolist"):
+                    for childiter in ("list", "reversed", "filter", "tail", "iter", "revgen", "memolist", "lazyodd", "filterobj"):
                         for dictcls in ("dict", "OrderedDict", "MyDict"):
                             yield {"kind": "tree", "cls": ["AnyNode", "Node", "AttrNM", "LenAnyNode", "EqAnyNode"][k % 5], "shape": forest.to_list(shape), "attrs": [pattern[(i + k) % 3] for i in range(size)], "start": start, "attriter": attriter, "childiter": childiter, "dictcls": dictcls, "maxlevel": maxlevel}
 
